@@ -506,6 +506,44 @@ def two_models(x0: int, x1: int, x2: int, x3: int) -> bool:
     return hx.end(True)
 
 
+def handover(t1: bool, t2: bool, a1: bool, a2: bool, ao: bool, b1: bool, b2: bool, bo: bool, j: int) -> bool:
+    """
+    pre: 0 <= j < 2
+    post: _
+    """
+    # an environment object that already served one model (an agent joined and left again, so it is empty) is handed to
+    # another model - set_model + set_environment, the API's own way - and populated there: the NEW owner lists the
+    # components, the former owner lists nothing
+    hx.begin()
+    kind = hx.P['world']
+    m1, m2 = Model(), Model()
+    env = _world(m1, kind)
+    t = _mk_agent(m1, "t", t1, t2, False)
+    env.add_agent(t)
+    if _check_i3(m1, [t], "first owner while populated") is not True:
+        return hx.end(False)
+    env.remove_agent("t")
+    if _check_i3(m1, [], "first owner after its agent left") is not True:
+        return hx.end(False)
+    env.set_model(m2)
+    m2.set_environment(env)
+    residents = [_mk_agent(m2, "r0", a1, a2, ao), _mk_agent(m2, "r1", b1, b2, bo)]
+    for a in residents:
+        env.add_agent(a)
+    if a1 or a2 or b1 or b2:
+        hx.reach('populated_after_handover')
+    if _check_i3(m2, residents, "new owner after the handover") is not True:
+        return hx.end(False)
+    if _check_i3(m1, [], "former owner after the handover") is not True:
+        return hx.end(False)
+    leaver = hx.pick(residents, j)
+    env.remove_agent(leaver.id)
+    residents = [a for a in residents if a is not leaver]
+    if _check_i3(m2, residents, "new owner after a leave") is not True:
+        return hx.end(False)
+    return hx.end(_check_i3(m1, [], "former owner after a leave in the handed-over environment") is True)
+
+
 def _two_parts(k):
     import itertools
     out = []
@@ -708,6 +746,9 @@ def obligations(tier):
         X("component_aliases", component_aliases, labels=("compared",), timeout=300, encoded=enc),
         X("install_populated", install_populated, parts=[{"world": w} for w in ["plain"] + sp_worlds], labels=("populated",), timeout=600,
           encoded=senc + (Model.set_environment,)),
+        X("handover", handover, parts=[{"world": w} for w in ["plain"] + sp_worlds], labels=("populated_after_handover",), timeout=600,
+          encoded=senc + (Environment.set_model, Model.set_environment),
+          bounds={"history": "one agent joins and leaves under the first model, hand-over, two agents join, one leaves"}),
         X("refused_deregister", refused_deregister, labels=("refused",), timeout=300, encoded=enc),
         X("history", history, parts=_hist_parts(k, ["plain"]), labels=tuple(_LABEL_OF.values()), labels_for=_hist_labels,
           timeout=300, group=6, encoded=enc,
